@@ -56,7 +56,8 @@ def mk_frame(kind, sep, limit, rng):
 
 JSON_GOOD = [b"[1]", b'{"a":"b"}', b'"x\\"y"', b"12\n", b"null\n", b"[[]]", b'{"k":[1,{"z":"}"}]}', b'"["',
              b"1e+16\n", b"-2.5E-3\n", b"[1e+22]"]
-JSON_BAD = [b"[1,]", b'{"a"}', b"[,]", b'{"a":}', b"nul\n", b"[1 2]", b'"\\x"']      # balanced for the scanner, rejected by the decoder
+JSON_BAD = [b"[1,]", b'{"a"}', b"[,]", b'{"a":}', b"nul\n", b"[1 2]", b'"\\x"',
+            b'{"a":[1}', b'[{"x":1]', b'{"k":[[2}']     # outer bracket closes while an inner one is still open      # balanced for the scanner, rejected by the decoder
 
 
 def json_cases(tier, rng, escalate):
